@@ -1,4 +1,4 @@
-import CardVerif.Spec.Legality
+import CardModel.Spec.Legality
 import CardVerif.Proofs.ListLemmas
 /-!
 # C04 — `append_action` accepts exactly the `LegalWith implLr` candidates, and what an accepted action does
